@@ -97,7 +97,7 @@ func init() {
 			}
 		}
 		for i, p := range parses {
-			if i%4 == 0 || c.thorough() {
+			if i%2 == 0 || len(t0(p)) < 600 || c.thorough() {
 				t := strings.Fields(p)
 				c.run("scribble", t[0], t[1])
 			}
@@ -106,3 +106,11 @@ func init() {
 }
 
 var histRunning bool
+
+// t0: the first token (the hex frame) of a captured parse case
+func t0(p string) string {
+	if i := strings.IndexByte(p, ' '); i > 0 {
+		return p[:i]
+	}
+	return p
+}
